@@ -84,7 +84,8 @@ class C03(L1Prop):
             "existing client (latest / stale), GetChildVersion, AddSnapshot, GetSnapshot; new and existing client} under "
             "every ordering of their transactions (binary schedules of length 4, the rest drained) plus begin-while-held "
             "probes, on the in-memory backend, one SQLite instance and several SQLite instances on one directory; each "
-            "outcome must equal some one-at-a-time execution of the same requests on the implementation; non-trivial = "
+            "outcome must equal some one-at-a-time execution of the same requests on the implementation, AND every response and the "
+            "final store must equal what the extracted model (ConcRig.rig_results) computes for the same transaction schedule; non-trivial = "
             "schedules in which transactions of different requests alternate; distinct by (requests, normalised outcome)")
     def cases(self, rng, tier):
         out = []
@@ -116,8 +117,15 @@ class C03(L1Prop):
                 out.append(Case(f"c03-{k}", ops, {"reqs": reqs, "group": f"{a}+{b}+{c}", "sched": s, "cmode": mode}, mode="http"))
                 k += 1
         return out
+    def normalize(self, trace):
+        # the scheduler's notes (blocked / LOCK-VIOLATION / HANG) are read by the oracle; the model
+        # has nothing to say about them
+        return [(o, ri, ri if o.startswith("csched") else rm) for (o, ri, rm) in trace]
     def relevant(self, i, trace):
-        return False          # the verdict comes from the linearizability oracle (and the model run, when built)
+        # correspondence: the extracted model runs the SAME transaction schedule (ConcRig.rig_results,
+        # an instance of Conc.crun by ConcRigProps.rig_run_is_crun) and must give every request the
+        # response, and the store the final contents, that the real handlers produced
+        return trace[i][0].startswith(("http ", "dump "))
     def _block(self, trace):
         for i, (o, ri, rm) in enumerate(trace):
             if o.startswith("conc "):
